@@ -409,7 +409,7 @@ fn check_state(u: &Universe, s: &RefState) -> StateOut {
         }
     }
     // observation: accumulator's WSC bytes vs the store writer's bytes (root instance)
-    if let (Some(ab), Some(wb)) = (&canonical_acc, canonical_wsc.get(&0)) {
+    if let (Some(ab), Some(wb), true) = (&canonical_acc, canonical_wsc.get(&0), s.instances.len() == 1) {
         o.acc_wsc_equal = Some(ab == wb);
         let p0 = project(s, 0);
         let c0 = project(&content, 0);
@@ -540,54 +540,65 @@ fn state_phase(r: &Report, t: &mut Tot, uni: &Uni) {
     let outs: Vec<StateOut> = uni.states.par_iter().map(|s| check_state(&uni.u, s)).collect();
     let case = |i: usize| json!({"universe": uni.name, "level": uni.level, "state_index": i, "state": uni.states[i].to_json()});
 
-    // (1) function / injectivity maps, in index order
+    // (1) function / injectivity maps, in index order — for the legacy root and, independently,
+    // for the accumulator's root (so an accumulator-only hashing defect is visible even while the
+    // two implementations disagree globally)
     let contents: Vec<RefState> = uni.states.par_iter().map(|s| s.reachable_content()).collect();
     let mut by_content: BTreeMap<&RefState, Vec<usize>> = BTreeMap::new();
-    let mut by_root: BTreeMap<[u8; 32], Vec<usize>> = BTreeMap::new();
     for i in 0..uni.states.len() {
         by_content.entry(&contents[i]).or_default().push(i);
-        by_root.entry(outs[i].root).or_default().push(i);
     }
     t.contents += by_content.len() as u64;
-    for (_, idxs) in &by_content {
-        if idxs.len() > 1 {
-            t.contents_shared += 1;
+    t.contents_shared += by_content.values().filter(|v| v.len() > 1).count() as u64;
+    let mut distinct_roots = 0usize;
+    for (which, roots) in [
+        ("state-root", outs.iter().map(|o| o.root).collect::<Vec<_>>()),
+        ("accumulator-root", outs.iter().map(|o| o.acc_root).collect::<Vec<_>>()),
+    ] {
+        let mut by_root: BTreeMap<[u8; 32], Vec<usize>> = BTreeMap::new();
+        for i in 0..uni.states.len() {
+            by_root.entry(roots[i]).or_default().push(i);
         }
-        let first = idxs[0];
-        for &i in &idxs[1..] {
-            if outs[i].root != outs[first].root {
-                let tags = flag_names(pair_flags(&uni.states[first], &uni.states[i])).join(",");
-                add_viol(t, &format!("{prefix}state-root-differs-for-equal-reachable-content:unreachable-change={tags}"), || {
-                    json!({"case": {"kind": "two-states", "universe": uni.name, "level": uni.level, "i": first, "j": i,
-                           "state_i": uni.states[first].to_json(), "state_j": uni.states[i].to_json(),
-                           "reachable_content": contents[i].to_json()},
-                           "root_i": mc::hex(&outs[first].root), "root_j": mc::hex(&outs[i].root)})
+        if which == "state-root" {
+            distinct_roots = by_root.len();
+        }
+        for (_, idxs) in &by_content {
+            let first = idxs[0];
+            for &i in &idxs[1..] {
+                if roots[i] != roots[first] {
+                    let tags = flag_names(pair_flags(&uni.states[first], &uni.states[i])).join(",");
+                    add_viol(t, &format!("{prefix}{which}-differs-for-equal-reachable-content:unreachable-change={tags}"), || {
+                        json!({"case": {"kind": "two-states", "universe": uni.name, "level": uni.level, "i": first, "j": i,
+                               "state_i": uni.states[first].to_json(), "state_j": uni.states[i].to_json(),
+                               "reachable_content": contents[i].to_json()},
+                               "root_i": mc::hex(&roots[first]), "root_j": mc::hex(&roots[i])})
+                    });
+                }
+            }
+        }
+        for (root, idxs) in &by_root {
+            // distinct contents under this root
+            let mut reps: Vec<usize> = Vec::new();
+            for &i in idxs {
+                if !reps.iter().any(|&j| contents[j] == contents[i]) {
+                    reps.push(i);
+                }
+            }
+            for k in 1..reps.len() {
+                let i = reps[k];
+                // nearest earlier colliding content names the class
+                let j = *reps[..k]
+                    .iter()
+                    .min_by_key(|&&j| (content_distance(&contents[j], &contents[i]), j))
+                    .unwrap_or(&reps[0]);
+                let tags = flag_names(pair_flags(&contents[j], &contents[i])).join(",");
+                add_viol(t, &format!("{prefix}{which}-collision:reachable-content-differs-in={tags}"), || {
+                    json!({"case": {"kind": "two-states", "universe": uni.name, "level": uni.level, "i": j, "j": i,
+                           "state_i": uni.states[j].to_json(), "state_j": uni.states[i].to_json(),
+                           "reachable_i": contents[j].to_json(), "reachable_j": contents[i].to_json()},
+                           "shared_root": mc::hex(root)})
                 });
             }
-        }
-    }
-    for (root, idxs) in &by_root {
-        // distinct contents under this root
-        let mut reps: Vec<usize> = Vec::new();
-        for &i in idxs {
-            if !reps.iter().any(|&j| contents[j] == contents[i]) {
-                reps.push(i);
-            }
-        }
-        for k in 1..reps.len() {
-            let i = reps[k];
-            // nearest earlier colliding content names the class
-            let j = *reps[..k]
-                .iter()
-                .min_by_key(|&&j| (content_distance(&contents[j], &contents[i]), j))
-                .unwrap_or(&reps[0]);
-            let tags = flag_names(pair_flags(&contents[j], &contents[i])).join(",");
-            add_viol(t, &format!("{prefix}state-root-collision:reachable-content-differs-in={tags}"), || {
-                json!({"case": {"kind": "two-states", "universe": uni.name, "level": uni.level, "i": j, "j": i,
-                       "state_i": uni.states[j].to_json(), "state_j": uni.states[i].to_json(),
-                       "reachable_i": contents[j].to_json(), "reachable_j": contents[i].to_json()},
-                       "shared_root": mc::hex(root)})
-            });
         }
     }
 
@@ -657,7 +668,7 @@ fn state_phase(r: &Report, t: &mut Tot, uni: &Uni) {
     r.note(
         &format!("states:{}{}", uni.name, uni.level),
         json!({"states": uni.states.len(), "raw_product": uni.raw, "distinct_reachable_contents": by_content.len(),
-               "distinct_roots": by_root.len(),
+               "distinct_roots": distinct_roots,
                "states_with_unreachable_content": outs.iter().filter(|o| o.strict_subset).count(),
                "accumulator_root_mismatches": acc_mismatch,
                "construction_variants": outs.iter().map(|o| o.variants).sum::<u64>(),
@@ -932,9 +943,10 @@ fn main() {
     r.counter("pairs_accumulator_apply_root==legacy_root_of_applied_store", t.pairs_acc_eq_legacy);
     r.note(
         "observation:accumulator_wsc_vs_store_writer_wsc",
-        json!({"root_instance_bytes_equal": t.acc_wsc_equal, "root_instance_bytes_differ": t.acc_wsc_differs,
-               "equal_exactly_when_root_instance_fully_reachable": t.acc_wsc_equal_iff_fully_reachable,
-               "status": "not asserted: the code does not document byte equality (accumulator emits reachable rows of the root instance only)"}),
+        json!({"scope": "single-instance states only (for multi-instance states the accumulator writes the reachable instance with the smallest WarpId, a documented TODO)",
+               "bytes_equal": t.acc_wsc_equal, "bytes_differ": t.acc_wsc_differs,
+               "equal_exactly_when_every_element_is_reachable": t.acc_wsc_equal_iff_fully_reachable,
+               "status": "not asserted: the code does not document byte equality (the accumulator emits reachable rows only)"}),
     );
     r.outcome_n("states_checked", t.states);
     r.outcome_n("states_accumulator_root==legacy_root", t.acc_total - t.acc_mismatch);
